@@ -425,6 +425,10 @@ fn main() {
                     if pol == Policy::Downgrading && p == 0 {
                         continue;
                     }
+                    // plan 4 x max 3 (idempotent) is > 5e7 schedules: beyond the thorough budget, left out (stated in the rule)
+                    if p + m > 6 {
+                        continue;
+                    }
                     sweeps.push(Params { p, m, idem, pol });
                 }
             }
